@@ -4,8 +4,10 @@ scratch copies.  Each entry: id, property, file, old text, new text (exact, sing
 M = []
 
 
-def m(id, prop, file, old, new, note="", more=()):
-    M.append({"id": id, "property": prop, "edits": [(file, old, new)] + list(more), "note": note})
+def m(id, prop, file, old, new, note="", more=(), expect="detect"):
+    """expect="miss": a control - an edit that does not break the property as stated (equivalent, or inside a zone the
+    statement leaves open); the check staying quiet on it is the wanted outcome."""
+    M.append({"id": id, "property": prop, "edits": [(file, old, new)] + list(more), "note": note, "expect": expect})
 
 
 # ---------------------------------------------------------------- C15
@@ -136,8 +138,24 @@ m("m04f", "C04", "sqllineage/core/metadata_provider.py",
 m("m04g", "C04", "sqllineage/core/holders.py",
   "            g = nx.compose(g, holder.graph)\n            if holder.drop:\n",
   "            g = nx.compose(holder.graph, g) if len(holder.write) > 1 else nx.compose(g, holder.graph)\n            if holder.drop:\n",
-  "benign-looking compose order change (no effect expected: equivalent mutant control)")
+  "benign-looking compose order change (no effect expected: equivalent mutant control)", expect="miss")
 m("m04h", "C04", "sqllineage/core/holders.py",
-  "                    if new_column in target_columns or src_col.raw_name == \"*\":\n                        continue\n",
-  "                    if new_column in target_columns or src_col.raw_name == \"*\":\n                        continue\n                    if len(target_columns) >= 2 and new_column.raw_name.endswith(\"_2\"):\n                        continue\n",
+  "            if new_column in target_columns or src_col.raw_name == \"*\":\n                continue\n",
+  "            if new_column in target_columns or src_col.raw_name == \"*\":\n                continue\n            if len(src_table_columns) >= 3 and src_col is src_table_columns[-1]:\n                continue\n",
   "wildcard expansion from session drops some columns")
+m("m04j", "C04", "sqllineage/runner.py",
+  "                stmt_holders.append(stmt_holder)\n",
+  "                else:\n                    self._metadata_provider.deregister_session_metadata()\n                stmt_holders.append(stmt_holder)\n",
+  "a statement that writes nothing (bare SELECT) makes the session forget what it learned")
+m("m04k", "C04", "sqllineage/core/holders.py",
+  "            if len(src_cols) == 0 and bool(metadata_provider):\n",
+  "            if bool(metadata_provider):\n",
+  "metadata consulted although the graph already resolved the column (only differs when two candidates define the column: a zone the statement leaves open)", expect="miss")
+m("m04p", "C04", "sqllineage/runner.py",
+  "                        tgt_columns := stmt_holder.get_table_columns(tgt_table)\n                    ):\n",
+  "                        tgt_columns := stmt_holder.get_table_columns(tgt_table)\n                    ) and len(tgt_columns) > 1:\n",
+  "single-column tables are not registered with the session")
+m("m04q", "C04", "sqllineage/core/metadata_provider.py",
+  "        self._session_metadata[str(table)] = [c.raw_name for c in columns]\n",
+  "        self._session_metadata[str(table)] = sorted(c.raw_name for c in columns)[:3]\n",
+  "session keeps at most three columns per table")
